@@ -26,6 +26,7 @@ import (
 //            (one read, clean end): a stream that may set, change and reset the last event ID.  Its events are not part
 //            of the observation; what it leaves behind is the ID the stream under test must be interpreted with.
 //            (x<first> = "s" | "b" | "f": the reader handed to Read is a *strings.Reader / *bytes.Reader / *bytes.Buffer itself)
+//          6 as 4, but Connection.Buffer(buf, max) is called from OnRetry after the first attempt instead of before Connect
 //          5 sse.Read's iterator ranged over twice; written out as the entry-0 case the second range is (see postParse)
 //          2 read() as a Connection calls it (retry callback, EOF reported), initial last event ID id0
 //          3 read() as sse.Read calls it (no retry callback, EOF ignored), initial last event ID id0
@@ -234,7 +235,7 @@ func execParse(in val.V) (out val.V) {
 			return val.L(val.List(yields), val.Int(pulledNow()), val.N(0))
 		}
 		sse.Read(rd, cfg)(consume)
-	case 1, 4:
+	case 1, 4, 6:
 		ctx, cancel := context.WithCancel(context.Background())
 		defer cancel()
 		rd.ctx, rd.cancel = ctx, cancel
@@ -255,14 +256,21 @@ func execParse(in val.V) (out val.V) {
 		}
 		bo := sse.Backoff{MaxRetries: -1}
 		var secondErr error
+		var connRef *sse.Connection
 		var onRetryErr func(error, time.Duration)
-		if entry == 4 {
+		second := entry == 4 || entry == 6
+		if second {
 			// every validated response resets the retry counter, so the run is ended from OnRetry: the error that ends
 			// the second attempt is the observation, then the context is cancelled
 			bo = sse.Backoff{MaxRetries: 0, InitialInterval: time.Microsecond, Jitter: -1}
 			retries := 0
 			onRetryErr = func(err error, _ time.Duration) {
 				retries++
+				if retries == 1 && entry == 6 {
+					// the application changes the buffer while connected (it has seen the first attempt end): the next
+					// attempt must scan with what Buffer was given last
+					connRef.Buffer(buf, maxSize)
+				}
 				if retries == 2 {
 					secondErr = err
 					cancel()
@@ -272,11 +280,11 @@ func execParse(in val.V) (out val.V) {
 		client := sse.Client{
 			HTTPClient: &http.Client{Transport: parseRT(func(r *http.Request) (*http.Response, error) {
 				attempts++
-				if entry == 4 && attempts > 2 {
+				if second && attempts > 2 {
 					// the timer may win the select against the cancelled context: nothing more is to be read
 					return nil, context.Canceled
 				}
-				if entry == 4 && attempts == 1 {
+				if second && attempts == 1 {
 					return &http.Response{StatusCode: http.StatusOK, Body: io.NopCloser(strings.NewReader(first)), Request: r, Header: http.Header{},
 						ContentLength: announced(int64(len(first)), true)}, nil
 				}
@@ -289,15 +297,18 @@ func execParse(in val.V) (out val.V) {
 		}
 		req, _ := http.NewRequestWithContext(ctx, http.MethodGet, "http://verif.invalid/", http.NoBody)
 		conn := client.NewConnection(req)
-		conn.Buffer(buf, maxSize)
+		connRef = conn
+		if entry != 6 {
+			conn.Buffer(buf, maxSize)
+		}
 		conn.SubscribeToAll(func(e sse.Event) {
-			if entry == 4 && attempts < 2 {
+			if second && attempts < 2 {
 				return // the first attempt's events are not the observation
 			}
 			yields = append(yields, encEvent(e))
 		})
 		err := conn.Connect()
-		if entry == 4 && secondErr != nil {
+		if second && secondErr != nil {
 			err = secondErr
 		}
 		if err != nil {
@@ -370,6 +381,10 @@ func (pc parseCase) emit(c *Ctx) {
 		entry = 4
 		if k := c.R.Intn(len(parseFirstBodies) + 3); k < len(parseFirstBodies) {
 			first = parseFirstBodies[k]
+		}
+		if c.R.Intn(3) == 0 {
+			entry = 6
+			c.Count("second-attempt:buffer-set-between-attempts")
 		}
 		if first == "" {
 			c.Count("second-attempt:after-empty-body")
